@@ -152,15 +152,43 @@ theorem loops_swallows_axis :
   · intro n h; cases h
   · intro n m h; cases h
 
+/-- `pd2np` is NOT transparent for an int ndarray argument (finding K6): on non-pandas input it still runs
+`_int2float` over the arguments, so f receives a float array (`~arr:f:…`) where an int array (`~arr:…`) was passed —
+documented ("will also convert int numpy arrays into floaters"), but the transparency clause of the property is false
+of the code there; this is the witness: `pd2np(lambda a: a)(np.array([1, 2]))` has dtype float. -/
+theorem pd2np_converts_int_array :
+    ∃ (s : Sig) (c : Call) (b : PDict), s.WF ∧ bindRef s c = .ok b ∧ (∀ p ∈ c.kw, p.1 ∈ s.params) ∧
+      evalChain s recBody [(.pd2np, [])] c ≠ applyFn s recBody c ∧
+      evalChain s recBody [(.pd2np, [])] c = applyFn s recBody (pd2npCall [] c) ∧
+      applyFn s recBody c = .ok (.dict [("a", .cell (.str "~arr:1,2"))]) ∧
+      evalChain s recBody [(.pd2np, [])] c = .ok (.dict [("a", .cell (.str "~arr:f:1,2"))]) := by
+  refine ⟨{ params := ["a"], defaults := [], varargs := none, varkw := none },
+    { args := [.cell (.str "~arr:1,2")], kw := [] }, [("a", .cell (.str "~arr:1,2"))], ?_, by decide +kernel,
+    by simp, by decide +kernel, rfl, by decide +kernel, by decide +kernel⟩
+  refine ⟨by decide, by decide, ?_, ?_, ?_⟩
+  · intro n h; cases h
+  · intro n h; cases h
+  · intro n m h; cases h
+
+/-- … and that is the only thing it does: a keyword named in `exc` keeps its int array -/
+example :
+    let s : Sig := { params := ["a", "b"], defaults := [], varargs := none, varkw := none }
+    evalChain s recBody [(.pd2np, [("exc", .list [.cell (.str "b")])])]
+        { args := [.list [.cell (.str "~arr:1,2"), .cell (.int 3)]], kw := [("b", .cell (.str "~arr:4"))] } =
+      .ok (.dict [("a", .list [.cell (.str "~arr:f:1,2"), .cell (.int 3)]), ("b", .cell (.str "~arr:4"))]) := by
+  decide +kernel
+
 /-- **Transparency of every stack.** On a valid call that passes only declared keywords, none of them called
-`axis` (see `loops_swallows_axis`), any stack of `try_value / try_back / kwargs_support / cache (first call) /
-loops (non-container) / pd2np (non-pandas)` returns what `f` returns. -/
+`axis` (see `loops_swallows_axis`), and no int ndarray among the arguments (see `pd2np_converts_int_array`), any stack
+of `try_value / try_back / kwargs_support / cache (first call) / loops (non-container) / pd2np (non-pandas)` returns
+what `f` returns. -/
 theorem stack_transparent (s : Sig) (body : PDict → Res Val) :
     ∀ (chain : List (Cls × PDict)) (c : Call) (v : Val), (∀ p ∈ c.kw, p.1 ∈ s.params) →
-      (∀ p ∈ c.kw, p.1 ≠ "axis") → applyFn s body c = .ok v → evalChain s body chain c = .ok v
-  | [], c, v, _, _, h => by simpa [evalChain] using h
-  | (cls, p) :: rest, c, v, hd, hax, h => by
-      have ih := stack_transparent s body rest c v hd hax h
+      (∀ p ∈ c.kw, p.1 ≠ "axis") → c.hasIntArr = false → applyFn s body c = .ok v →
+      evalChain s body chain c = .ok v
+  | [], c, v, _, _, _, h => by simpa [evalChain] using h
+  | (cls, p) :: rest, c, v, hd, hax, hia, h => by
+      have ih := stack_transparent s body rest c v hd hax hia h
       have hk : kwFilter s c = c := by
         cases c with
         | mk args kw =>
@@ -171,14 +199,17 @@ theorem stack_transparent (s : Sig) (body : PDict → Res Val) :
       have hl : evalChain s body rest (loopsCall s c) = .ok v :=
         stack_transparent s body rest (loopsCall s c) v
           (fun q hq => hd q (loopsCall_kw_sub s c q hq)) (fun q hq => hax q (loopsCall_kw_sub s c q hq))
-          (by simpa [applyFn, loopsCall_bind s c hax] using h)
-      cases cls <;> simp [evalChain, ih, hk, hl]
+          (loopsCall_hasIntArr s c hia) (by simpa [applyFn, loopsCall_bind s c hax] using h)
+      have hp : pd2npCall (excOf p) c = c := pd2npCall_of_no _ c hia
+      cases cls <;> simp [evalChain, ih, hk, hl, hp]
 
-/-- for a function without `**kwargs` that is every valid call (without a keyword called `axis`) -/
+/-- for a function without `**kwargs` that is every valid call (without a keyword called `axis`, without an int
+ndarray argument) -/
 theorem stack_transparent_no_varkw (s : Sig) (hv : s.varkw = none) (body : PDict → Res Val) (c : Call)
-    (v : Val) (hax : ∀ p ∈ c.kw, p.1 ≠ "axis") (h : applyFn s body c = .ok v) (chain : List (Cls × PDict)) :
+    (v : Val) (hax : ∀ p ∈ c.kw, p.1 ≠ "axis") (hia : c.hasIntArr = false) (h : applyFn s body c = .ok v)
+    (chain : List (Cls × PDict)) :
     evalChain s body chain c = .ok v := by
-  apply stack_transparent s body chain c v _ hax h
+  apply stack_transparent s body chain c v _ hax hia h
   cases hb : bindRef s c with
   | error e => simp [applyFn, hb] at h
   | ok b =>
@@ -191,27 +222,29 @@ theorem stack_transparent_no_varkw (s : Sig) (hv : s.varkw = none) (body : PDict
 /-- for a function with `**kwargs`, every stack that does not contain `kwargs_support` is transparent on
 every valid call (what remains is finding K1) -/
 theorem stack_transparent_without_kwargs_support (s : Sig) (body : PDict → Res Val) :
-    ∀ (chain : List (Cls × PDict)) (c : Call) (v : Val), (∀ p ∈ c.kw, p.1 ≠ "axis") →
+    ∀ (chain : List (Cls × PDict)) (c : Call) (v : Val), (∀ p ∈ c.kw, p.1 ≠ "axis") → c.hasIntArr = false →
       applyFn s body c = .ok v → (∀ w ∈ chain, w.1 ≠ .kwargsSupport) → evalChain s body chain c = .ok v
-  | [], c, v, _, h, _ => by simpa [evalChain] using h
-  | (cls, p) :: rest, c, v, hax, h, hc => by
+  | [], c, v, _, _, h, _ => by simpa [evalChain] using h
+  | (cls, p) :: rest, c, v, hax, hia, h, hc => by
       have hr : ∀ w ∈ rest, w.1 ≠ .kwargsSupport := fun w hw => hc w (by simp [hw])
-      have ih := stack_transparent_without_kwargs_support s body rest c v hax h hr
+      have ih := stack_transparent_without_kwargs_support s body rest c v hax hia h hr
       have hl : evalChain s body rest (loopsCall s c) = .ok v :=
         stack_transparent_without_kwargs_support s body rest (loopsCall s c) v
-          (fun q hq => hax q (loopsCall_kw_sub s c q hq))
+          (fun q hq => hax q (loopsCall_kw_sub s c q hq)) (loopsCall_hasIntArr s c hia)
           (by simpa [applyFn, loopsCall_bind s c hax] using h) hr
+      have hp : pd2npCall (excOf p) c = c := pd2npCall_of_no _ c hia
       have : cls ≠ .kwargsSupport := hc (cls, p) (by simp)
       cases cls <;> simp_all [evalChain]
 
 /-- a stack without `try_*` also raises what `f` raises -/
 theorem stack_transparent_raise (s : Sig) (body : PDict → Res Val) :
     ∀ (chain : List (Cls × PDict)) (c : Call), (∀ p ∈ c.kw, p.1 ∈ s.params) → (∀ p ∈ c.kw, p.1 ≠ "axis") →
+      c.hasIntArr = false →
       (∀ w ∈ chain, w.1 ≠ .tryValue ∧ w.1 ≠ .tryBack) → evalChain s body chain c = applyFn s body c
-  | [], c, _, _, _ => by simp [evalChain]
-  | (cls, p) :: rest, c, hd, hax, hc => by
+  | [], c, _, _, _, _ => by simp [evalChain]
+  | (cls, p) :: rest, c, hd, hax, hia, hc => by
       have hr : ∀ w ∈ rest, w.1 ≠ .tryValue ∧ w.1 ≠ .tryBack := fun w hw => hc w (by simp [hw])
-      have ih := stack_transparent_raise s body rest c hd hax hr
+      have ih := stack_transparent_raise s body rest c hd hax hia hr
       have hk : kwFilter s c = c := by
         cases c with
         | mk args kw =>
@@ -221,8 +254,10 @@ theorem stack_transparent_raise (s : Sig) (body : PDict → Res Val) :
           simpa using hd q hq
       have hl : evalChain s body rest (loopsCall s c) = applyFn s body c := by
         rw [stack_transparent_raise s body rest (loopsCall s c)
-          (fun q hq => hd q (loopsCall_kw_sub s c q hq)) (fun q hq => hax q (loopsCall_kw_sub s c q hq)) hr]
+          (fun q hq => hd q (loopsCall_kw_sub s c q hq)) (fun q hq => hax q (loopsCall_kw_sub s c q hq))
+          (loopsCall_hasIntArr s c hia) hr]
         simp [applyFn, loopsCall_bind s c hax]
+      have hp : pd2npCall (excOf p) c = c := pd2npCall_of_no _ c hia
       have := hc (cls, p) (by simp)
       cases cls <;> simp_all [evalChain]
 
